@@ -1005,8 +1005,19 @@ package router
 // tcpServer.handleConn (read loop of one connection): every query read is answered - either by its own
 // goroutine, or, when the connection already has maxConcurrent queries in flight or the limiter refuses the
 // client, at once with one REFUSED frame - and never both; a refused query is not handled.
+// On a TLS listener nothing is read from the client before the handshake - made with the listener's own TLS
+// configuration on this very connection - has succeeded, and every query is then read through the TLS layer.
 //@ func (s *tcpServer) handleConn(c net.Conn)
-//@   props C13 C15
+//@   props C13 C15 C17
+//@   ghost gTC *tls.Conn = nil
+//@   ghost gHS error = nil
+//@   ghost nHS int = 0
+//@   aftercall Server?: gTC = ret0
+//@   oncall HandshakeContext?: nHS = nHS + 1
+//@   aftercall HandshakeContext?: gHS = ret0
+//@   callsite Server?: [C17:handshake-with-the-listener-configuration] arg0 == c0 && arg1 == s.tlsConfig
+//@   callsite HandshakeContext?: [C17:handshake-on-this-connection] arg0 == gTC
+//@   callsite NewBR1K: [C17:queries-are-read-through-tls] old(s.tlsConfig) != nil ==> nHS == 1 && gHS == nil && typeIs(arg0, *tls.Conn) && ptrOf(arg0, tls.Conn) == gTC
 //@   requires s != nil && routerReady(s.r) && s.logger != nil && c != nil
 //@   noterm
 //@   ghost gM *dnsmsg.Msg = nil
